@@ -14,3 +14,6 @@ if [ -n "$SUITE" ]; then echo "== suite on patched tree"; N=${N:-8} /verif/tools
 unset SPSDK_CACHE_FOLDER
 echo "== check $P quick on patched tree"
 (cd /verif && VERIF_REPO=$WT ./check $P ${TIER:-quick} 2>&1 | grep -E "VIOLATION|KNOWN-FINDING|obligation FAILED|violation:|^\[$P\]" | head -20)
+# a run against a patched worktree must not leave its evidence / generated files behind: restore the evidence file of the
+# last run on /repo from git and regenerate Gen/*.v from /repo
+(cd /verif && git checkout -- evidence/$P.json 2>/dev/null; /venv/bin/python tools/regen_all.py >/dev/null 2>&1)
